@@ -508,6 +508,8 @@ def battery(h: Hist, repo, families=None, extra_ids=()):
     # ---- ancestry
     for a, la in zip(cids, cl):
         for b, lb in zip(cids, cl):
+            if "Z" in (la, lb) and not {la, lb} <= {"Z", "c0"}:
+                continue  # the never-existing id is paired with itself and with the root only
             if want("can_ff"):
                 out[("can_ff", la, lb)] = _ans(lambda a=a, b=b: bool(can_fast_forward(repo, a, b)))
             if la <= lb and want("merge_base"):
@@ -524,8 +526,9 @@ def battery(h: Hist, repo, families=None, extra_ids=()):
                         lambda inc=inc, exc=exc, order=order: tuple(
                             L(e.commit.id) for e in repo.get_walker(include=list(inc), exclude=list(exc) or None, order=order)))
     # ---- shallow / depth / graph walker
+    shallow_from = {h.commits[0].id, h.x.id} | {h.commits[t].id for t in h.tips}
     for c, lb in zip(cids[:-1], cl[:-1]):
-        if want("find_shallow"):
+        if want("find_shallow") and c in shallow_from:
             for depth in range(1, h.n + 2):
                 def fs(c=c, depth=depth):
                     s, ns = find_shallow(st, [c], depth)
@@ -638,7 +641,7 @@ def _is_exc(v):
 def predicate(ref, got):
     """How `got` (accelerated) differs from `ref` (plain) — a stable, input-independent phrase."""
     if _is_exc(got):
-        return "raises-%s" % got[1:]
+        return "raises-%s" % got.lstrip("!")
     if _is_exc(ref):
         return "answer-vs-%s" % ref[1:]
     if isinstance(ref, bool) or isinstance(got, bool) or ref is None or got is None:
@@ -1114,6 +1117,8 @@ def _eval_configs(acc, h, layout, configs, steps, mode, work, refcache, standalo
 
 # --------------------------------------------------------------------------- one history (batch)
 
+QUICK_STEPS = ("commit", "pack", "repack", "pack-loose", "delref", "delref+gc", "retag", "repack-excl", "deltag+gc")
+QUICK_LIVE_STEPS = ("commit", "pack", "repack", "delref+gc", "retag")
 MAIN_LAYOUTS = ("loose", "pack1", "pack2", "mixed")
 EXTRA_LAYOUTS = ("pack2o", "pack1-v1", "pack1-v3")
 DEFAULT = {"cg": "d", "midx": "d", "bitmap": "d", "prefs": "d"}
@@ -1137,7 +1142,7 @@ def plan_for(layout, tier):
     multi_d = [c for c in all_subsets(DEFAULT) if len(c) > 1]
     full_d = tuple((a, DEFAULT[a]) for a in ACCELS)
     full_g = tuple((a, "g") for a in ACCELS)
-    steps = list(STEPS)
+    steps = list(QUICK_STEPS if q else STEPS)
     plan = []
     if layout in MAIN_LAYOUTS:
         # fresh: every subset (dulwich writers), every writer variant alone, everything by C git
@@ -1151,7 +1156,7 @@ def plan_for(layout, tier):
         plan.append(("fresh", st_cfg, steps))
         # live: long-lived Repo object
         lv_cfg = [()] + singles_d + ([] if q else [full_d, (("cg", "g"),), (("midx", "g"),), (("prefs", "g"),)])
-        plan.append(("live", lv_cfg, [None] + steps))
+        plan.append(("live", lv_cfg, [None] + (list(QUICK_LIVE_STEPS) if q else steps)))
     else:
         cfgs = [(), (("midx", "d"),), (("bitmap", "d"),)] + ([] if q else [(("midx", "g"),), (("cg", "d"),), full_d])
         plan.append(("fresh", cfgs, [None] + (["commit", "delref+gc", "repack"] if q else steps)))
@@ -1271,6 +1276,8 @@ def _judge_untrusted(acc, who, scen, A, R, what, replay):
         fam = q[0]
         if _rejection(g):
             rejected = True
+            if g.startswith("!!"):
+                acc.outcome("%s:%s:rejected-with-%s" % (who, scen.split("@")[0], g[2:]))
             continue
         pred = predicate(r, g)
         masked = [p for p in DEPENDS.get(fam, ()) if p in dev_fams and p != fam] + [
@@ -1290,7 +1297,9 @@ def _judge_untrusted(acc, who, scen, A, R, what, replay):
 
 
 def _rejection(g):
-    return _is_exc(g) and not g.startswith("!!") and g[1:] not in REJECT_IS_ANSWER
+    """An exception that is not an answer of the query.  MemoryError / RecursionError ('!!') are rejections
+    too as far as C14 goes (containment of hostile input is property C04); they get their own outcome class."""
+    return _is_exc(g) and g.lstrip("!") not in REJECT_IS_ANSWER
 
 
 # --------------------------------------------------------------------------- E5 single-fault damage
@@ -1300,7 +1309,7 @@ DAMAGE_FAMILIES = {
     "midx": {"getitem", "contains", "get_raw", "iter", "mof", "parents"},
     "bitmap": {"reach_commits", "reach_objects", "mof"},
 }
-DAMAGE_TIMEOUT = 30
+DAMAGE_TIMEOUT = 8  # seconds of CPU time; the restricted battery needs ~0.05 s
 
 
 def chunk_regions(data, header_len):
@@ -1372,12 +1381,13 @@ class _Alarm:
         def onalarm(*_):
             raise _Timeout()
 
-        self.old = signal.signal(signal.SIGALRM, onalarm)
-        signal.setitimer(signal.ITIMER_REAL, DAMAGE_TIMEOUT)
+        # CPU time of this process, not wall time: the verdict must not depend on the machine's load
+        self.old = signal.signal(signal.SIGPROF, onalarm)
+        signal.setitimer(signal.ITIMER_PROF, DAMAGE_TIMEOUT)
 
     def __exit__(self, *a):
-        signal.setitimer(signal.ITIMER_REAL, 0)
-        signal.signal(signal.SIGALRM, self.old)
+        signal.setitimer(signal.ITIMER_PROF, 0)
+        signal.signal(signal.SIGPROF, self.old)
 
 
 _DMG = {}
@@ -1428,7 +1438,7 @@ def case_damage(acc: Acc, fixture, kind, writer, desc):
                 r.close()
     except _Timeout:
         acc.outcome("%s[%s]:damaged:hang" % (kind, writer))
-        acc.violation(_key("%s[%s]:damaged@%s:any:no-answer-within-%ds" % (kind, writer, region, DAMAGE_TIMEOUT)),
+        acc.violation(_key("%s[%s]:damaged@%s:any:no-answer-within-%ds-cpu" % (kind, writer, region, DAMAGE_TIMEOUT)),
                       "fixture %r %s %r: battery did not finish" % (FIXTURES[fixture][0], g["rel"], desc),
                       rp(case_damage, fixture, kind, writer, desc))
         return
@@ -1478,9 +1488,7 @@ QUICK_N4 = (
     ((), (0,), (1,), (2,)),  # chain
     ((), (0,), (0,), (1, 2)),  # diamond
     ((), (), (), (0, 1, 2)),  # octopus of three roots
-    ((), (0,), (0, 1), (0, 1, 2)),  # densest
     ((), (), (0, 1), (2,)),  # merge of two roots, then a commit
-    ((), (0,), (1,), (1,)),  # fork at the second commit
 )
 
 
